@@ -247,14 +247,9 @@ pub fn body_mode(req: &WireRequest, fold: bool) -> BodyMode {
 }
 
 fn is_amz_auth_name_loose(n: &[u8]) -> bool {
-    const NAMES: [&str; 6] = [
-        "X-Amz-Algorithm",
-        "X-Amz-Credential",
-        "X-Amz-Date",
-        "X-Amz-SignedHeaders",
-        "X-Amz-Signature",
-        "X-Amz-Security-Token",
-    ];
+    // X-Amz-Signature is deliberately absent: the canonical query excludes only the parameter spelled
+    // exactly so (C10), a differently cased name is an ordinary parameter and is covered by the signature.
+    const NAMES: [&str; 5] = ["X-Amz-Algorithm", "X-Amz-Credential", "X-Amz-Date", "X-Amz-SignedHeaders", "X-Amz-Security-Token"];
     NAMES.iter().any(|x| n.eq_ignore_ascii_case(x.as_bytes()) && n != x.as_bytes())
 }
 
